@@ -57,7 +57,7 @@ def ao_program(rng, ops, pid, seed):
     # garbage and damage make the removing commands want to remove something
     pre = list(steps)
     if rng.random() < 0.5:
-        pre.append({"cmd": "damage", "kind": "pack_data", "which": rng.randint(0, 3)})
+        pre.append({"cmd": "damage", "kind": rng.choice(["pack_data", "index_packs"]), "which": rng.randint(0, 3)})
     pre.append({"cmd": "config", "append_only": True})
     body = [op_step(rng, o, files, nsn) for o in ops]
     cfg = gen.rand_cfg(rng)
@@ -73,8 +73,9 @@ DRY = [{"cmd": "backup", "dry": True}, {"cmd": "repair_index", "dry": True, "rea
 def dry_program(rng, k, pid, seed):
     steps, nsn, alive, files = gen.history(rng, rng.randint(2, 4), 3600, allow_instant=False)
     pre = list(steps)
-    if rng.random() < 0.6:
-        pre.append({"cmd": "damage", "kind": rng.choice(["pack_data", "index"]), "which": rng.randint(0, 3)})
+    if rng.random() < 0.75:
+        # (index_packs: all packs of one index file vanish - that index file is completely stale afterwards)
+        pre.append({"cmd": "damage", "kind": rng.choice(["pack_data", "index", "index_packs", "index_packs"]), "which": rng.randint(0, 3)})
     st = dict(DRY[k % len(DRY)])
     if st["cmd"] == "backup":
         st["files"] = gen.evolve(rng, files)
@@ -106,7 +107,7 @@ def run(ctx):
     ops = (p2 if not q else [p for p in p2 if len(p) == 1] + rng.sample([p for p in p2 if len(p) == 2], 45)) + \
         (p4[:25] if q else p4[:800])
     progs = [ao_program(rng, o, "c15-ao-%d-%d" % (ctx.seed, i), ctx.seed * 10000 + i) for i, o in enumerate(ops)]
-    ndry = 18 if q else 150
+    ndry = 36 if q else 300
     progs += [dry_program(rng, k, "c15-dry-%d-%d" % (ctx.seed, k), ctx.seed * 10000 + 5000 + k) for k in range(ndry)]
     by_id = {p["id"]: p for p in progs}
     recs, r = run_trace(ctx, progs, "main", timeout=6000)
